@@ -289,8 +289,14 @@ def run(ctx):
     ctx.require(n >= 2, "GRAPH/GRAPHS dispatch in extractor / implicit usage not found")
     p = repo.func(f"{IU}:_process_node")
     cfg = CFG(p.node)
-    pushes = [c for c in calls_in(p) if norm(c.func) == "graph_stack.append"]
-    pops = [c for c in calls_in(p) if norm(c.func) == "graph_stack.pop"]
+    # the stack is the parameter that is both appended to and popped (role, not spelling)
+    appended = {norm(c.func.value) for c in calls_in(p) if isinstance(c.func, ast.Attribute) and c.func.attr == "append" and isinstance(c.func.value, ast.Name)}
+    popped = {norm(c.func.value) for c in calls_in(p) if isinstance(c.func, ast.Attribute) and c.func.attr == "pop" and isinstance(c.func.value, ast.Name)}
+    stacks = sorted((appended & popped) & set(p.params))
+    ctx.require(len(stacks) == 1, f"_process_node: scope-stack parameter not found ({stacks})")
+    pushes = [c for c in calls_in(p) if norm(c.func) == f"{stacks[0]}.append"]
+    pops = [c for c in calls_in(p) if norm(c.func) == f"{stacks[0]}.pop"]
+    usage_params = [q for q in p.params if any(isinstance(n, ast.Assign) and isinstance(n.targets[0], ast.Subscript) and norm(n.targets[0].value) == q for n in own_nodes(p.node))]
     ok = len(pushes) == len(pops) and len(pushes) >= 2
     for a in pushes:
         an = cfg.nodes_containing(a)[0]
@@ -302,7 +308,7 @@ def run(ctx):
               "a subgraph is pushed on the scope stack and not popped on some path: captures are attributed to the wrong graphs",
               how="push dominates its pop; no early exit in between")
     # every subgraph gets an entry, even when it captures nothing
-    inits = [n for n in own_nodes(p.node) if isinstance(n, ast.Assign) and isinstance(n.targets[0], ast.Subscript) and norm(n.targets[0].value) == "implicit_usages"]
+    inits = [n for n in own_nodes(p.node) if isinstance(n, ast.Assign) and isinstance(n.targets[0], ast.Subscript) and norm(n.targets[0].value) in usage_params]
     ctx.check("R2", "every visited subgraph gets a capture set", len(inits) == len(pushes), p, p.node,
               "a subgraph without captures is missing from the result", how="one initialisation per push", nontrivial=False)
     c = repo.func(f"{IU}:_collect_implicit_usages")
